@@ -952,6 +952,9 @@ impl<'a> Gen<'a> {
             ("index:string-assign-negative", "stel nl = string(123); nl[-9] = \"x\";"),
             ("index:string-assign-end", "stel nl = string(123); nl[3] = \"x\";"),
             ("index:empty", "[][0];"),
+            // panics of the pinned tree (deterministic in both builds): the machine is left by unwinding
+            ("panic:divide-by-zero", "[string(3), 1 / 0];"),
+            ("panic:remainder-by-zero", "stel nl = [2.5]; nl[0] = 7 % 0;"),
         ];
         // a name whose block has ended is unknown again (a compile-time reference error)
         if self.rng.chance(1, 5) {
